@@ -24,9 +24,9 @@ func (*C10) Rule() string {
 }
 
 func (*C10) Plan(tier string) orch.Plan {
-	n := 320
+	n := 4000
 	if tier == "thorough" {
-		n = 40000
+		n = 300000
 	}
 	return orch.Plan{Episodes: n, Batch: 1}
 }
@@ -90,6 +90,7 @@ func (p *C10) Gen(seed uint64, i int, tier string) *scen.Scenario {
 		}
 		return o
 	}
+	var allNames []string
 	nOps := r.Range(4, 40)
 	for k := 0; k < nOps; k++ {
 		l := scen.Pick(r, loggers)
@@ -107,6 +108,10 @@ func (p *C10) Gen(seed uint64, i int, tier string) *scen.Scenario {
 				} else {
 					op.Name, op.Named = fmt.Sprintf("n%d", nextID), true
 				}
+				if len(allNames) > 0 && r.Chance(1, 2) {
+					// a name in use somewhere else in the forest (another depth, the receiver itself, a sibling subtree)
+					op.Name, op.Named = scen.Pick(r, allNames), true
+				}
 			default:
 				op.Name, op.Named = fmt.Sprintf("n%d", nextID), true
 			}
@@ -123,6 +128,7 @@ func (p *C10) Gen(seed uint64, i int, tier string) *scen.Scenario {
 			if !existing {
 				if op.Name != "" {
 					l.names = append(l.names, op.Name)
+					allNames = append(allNames, op.Name)
 				}
 				l.children++
 				n := &lg{id: nextID}
@@ -388,8 +394,13 @@ func (p *C10) Check(sc *scen.Scenario, run *orch.Run, env *orch.Env) []orch.Viol
 					if rl.ID != ex {
 						add("C10.withskip", "second-call", "WithSkip(%d) on logger %d must keep one child per n (%d), got %d", op.I, op.L, ex, rl.ID)
 						broken = true
+						continue
 					}
-					continue
+					// the kept child is returned "carrying the setting": its skip count is n again,
+					// even if SetSkip changed it in between
+					ms[ex].skip = int(op.I)
+					target = ex
+					break
 				}
 				if !rl.New {
 					add("C10.with", "not-new kind=skip", "first WithSkip(%d) on logger %d returned the known logger %d", op.I, op.L, rl.ID)
